@@ -120,4 +120,34 @@ example : (run St.init (trace.dropLast ++ [.endRun .returned])).isNone = true :=
 example : ((run St.init (trace.take 14)).map (fun s => (s.phase, s.gather, s.pay 2, decide s.coQuiet))) =
     some (.up, .raised 2, .done .value, true) := by decide +kernel
 
+/-! ### the runtime glue as written in the source
+
+The model of this property was transcribed from these functions (how a failure travels: the payload monitors of the three runners, the failure future of the thread runner, the runner tasks, `gather` in `_manage_runners`, the closing of the runners and `MetaRunner.run` - the events `bodyEnd`, `record`, `rtaskEnd`, `gatherRaise`, `endRun` of the LTS).
+`Gen.runtimePins` is recomputed on every run: the normalised text of every function of the runner
+modules (docstrings, annotations and logging statements dropped) is compared with the text the
+model was last transcribed from (`harness/vh/pins.json`). A changed function breaks this theorem;
+the scenario families are then the search for a failing history. -/
+
+theorem gen_runtime_text :
+    ∀ n ∈ ["meta_runner:MetaRunner.run",
+     "meta_runner:MetaRunner._manage_runners",
+     "meta_runner:MetaRunner._aclose_runners",
+     "meta_runner:MetaRunner._launch_runners",
+     "meta_runner:MetaRunner._unqueue_payloads",
+     "meta_runner:MetaRunner.register_payload",
+     "base_runner:BaseRunner.run",
+     "base_runner:OrphanedReturn.__init__",
+     "asyncio_runner:AsyncioRunner._monitor_payload",
+     "asyncio_runner:AsyncioRunner.manage_payloads",
+     "asyncio_runner:AsyncioRunner._setup_payload",
+     "trio_runner:TrioRunner._monitor_payload",
+     "trio_runner:TrioRunner._manage_payloads_trio",
+     "trio_runner:TrioRunner._run_trio_blocking",
+     "trio_runner:TrioRunner.manage_payloads",
+     "thread_runner:ThreadRunner._monitor_payload",
+     "thread_runner:ThreadRunner._set_failure",
+     "thread_runner:ThreadRunner.manage_payloads",
+     "thread_runner:ThreadRunner.register_payload"],
+      Gen.pinned n = true := by decide
+
 end Cobald.Props.C01
